@@ -120,6 +120,12 @@ static void sbbf(int scale) {
         /* no false negatives: direct, after write->read, after merge into another filter */
         size_t wr = 0; uint8_t* ser = v_exact(sz); carquet_status_t st = carquet_bloom_filter_write(f, ser, sz, &wr);
         carquet_bloom_filter_t* g = NULL; if (st != CARQUET_OK || wr != sz || carquet_bloom_filter_read(&g, ser, wr) != CARQUET_OK || !g) { v_viol("sbbf:write-read-failed", "bytes=%zu st=%d wr=%zu", sz, st, wr); }
+        /* a loaded filter owns its bits: the caller's buffer is scribbled and released before the filter is probed, and a filter made by
+         * from_data must not write through the caller's (const) bytes when values are inserted into it */
+        { uint8_t* keep = v_exact_copy(ser, sz); memset(ser, 0x5A, sz); free(ser); ser = keep;
+          uint8_t* src = v_exact_copy(keep, sz); carquet_bloom_filter_t* h2 = carquet_bloom_filter_from_data(src, sz); if (h2) { carquet_bloom_filter_insert_hash(h2, vrng_u64(&R)); carquet_bloom_filter_insert_hash(h2, 0x0123456789ABCDEFULL); if (memcmp(src, keep, sz)) v_viol("sbbf:from_data-writes-through-callers-buffer", "bytes=%zu", sz);
+              memset(src, 0xA5, sz); free(src); src = NULL; for (int i = 0; i < nvals && i < 40; i++) if (!carquet_bloom_filter_check_hash(h2, hs[i])) { v_viol("sbbf:false-negative:from_data-after-source-buffer-released", "bytes=%zu", sz); break; } carquet_bloom_filter_destroy(h2); v_count("from_data_filters_probed_after_source_released"); } else v_viol("sbbf:from_data-failed", "bytes=%zu", sz);
+          free(src); }
         carquet_bloom_filter_t* m = carquet_bloom_filter_create(sz); int other = (int)vrng_below(&R, 50); uint64_t* oh = v_exact((size_t)other * 8);
         for (int i = 0; i < other; i++) { oh[i] = vrng_u64(&R); carquet_bloom_filter_insert_hash(m, oh[i]); }
         if (carquet_bloom_filter_merge(m, f) != CARQUET_OK) v_viol("sbbf:merge-equal-size-failed", "bytes=%zu", sz);
